@@ -19,15 +19,16 @@ ASSUMPTIONS = ['the conversion of a key to the looked-up column type is taken fr
                'a bool compared with an equal number (True == 1), CONTAINS on a non-list column, list-valued keys and '
                'equality lookups on RefList columns are not judged (counted as skipped); an error cell is accepted where the '
                'sort values are not mutually comparable (e.g. references mixed with alt text raise InvalidTypedValue)',
-               'two findings of this check were repaired in /repo (2d65959 ModifyColumn doc action kept whole floats in Int/Ref '
-               'columns after an undone type change; c81b065 a lookup raising on an unhashable key lost its dependency): their '
+               'three findings of this check were repaired in /repo (2d65959 ModifyColumn doc action kept whole floats in Int/Ref '
+               'columns after an undone type change; c81b065 a lookup raising on an unhashable key lost its dependency; 4f226c9 '
+               'a sort helper outlived the lookup map it sorts, a regression of c81b065): their '
                'deterministic witnesses run in every run as regression tests, and the state "whole float held in an Int/Ref '
                'column" is still looked for in the raw reply after every bundle and reported by mechanism if it comes back',
                'columns named in a legacy sort_by= argument and group-by columns of the summary tables are not renamed']
 REQUIRED = {'cells_compared': {'quick': 1500000, 'thorough': 20000000},
             'cells_order_judged': {'quick': 1000000, 'thorough': 15000000},
             'bundles_checked': {'quick': 1200, 'thorough': 15000},
-            'witness_runs': {'quick': 2, 'thorough': 2}}
+            'witness_runs': {'quick': 3, 'thorough': 3}}
 SHARD_TIMEOUT = {'quick': 200, 'thorough': 1500}
 
 KEY_ALPHABET = ['a', 'b', 'c', '', None, 0, 1, 2, 3, 2.5, 'x', '1', True, False]
@@ -58,7 +59,7 @@ MATCH_EMPTY = [LO.SKIP, LO.SKIP, 0, '', None, 'a', 1]       # SKIP = no match_em
 
 
 def plan(tier, seed):
-  w = [{'witness': 'all'}]      # deterministic regression witnesses of the two repaired findings (one small shard)
+  w = [{'witness': 'all'}]      # deterministic regression witnesses of the three repaired findings (one small shard)
   if tier == 'quick':
     return w + [{'hseed': seed * 100003 + i, 'steps': 130} for i in range(15)]
   return w + [{'hseed': seed * 100003 + 5000 + i, 'steps': 450} for i in range(63)]
@@ -593,11 +594,42 @@ def witness_unhashable_key(acc):
     acc.case(None)
 
 
+def witness_sorted_helper(acc):
+  """Regression witness of a finding repaired in /repo 4f226c9 (a regression of c81b065): a *sorted*
+  lookup raising on an unhashable key kept its dependency on the sort helper but not on the lookup map
+  the helper sorts; after a full-column recalculation in which every row raised, the map was cleaned
+  up as unused and re-created later, while the old helper went on answering from the discarded map."""
+  from vlib.client import EngineProc
+  from vlib import snapshot
+  formula = "[r.id for r in T.lookupRecords(S1=$K, sort_by='S2')]"
+  with EngineProc(timeout=240.0) as p:
+    p.init_doc()
+    p.apply([['AddTable', 'T', [{'id': 'S1', 'type': 'Any', 'isFormula': False}, {'id': 'S2', 'type': 'Text', 'isFormula': False}]]])
+    p.apply([['BulkAddRecord', 'T', [None] * 3, {'S1': [None, None, 3], 'S2': ['p', 'q', 'r']}]])
+    p.apply([['AddTable', 'Q', [{'id': 'K', 'type': 'Any', 'isFormula': False},
+                                {'id': 'P', 'type': 'Any', 'isFormula': True, 'formula': formula}]]])
+    p.apply([['BulkAddRecord', 'Q', [None, None], {'K': [None, None]}]])
+    p.apply([['BulkUpdateRecord', 'Q', [1, 2], {'K': [['L', 1], ['L', 1]]}]])        # unhashable keys: TypeError
+    p.apply([['ModifyColumn', 'Q', 'P', {'formula': formula + ' '}]])                   # full-column recalculation
+    p.apply([['BulkUpdateRecord', 'Q', [1, 2], {'K': [None, None]}]])
+    p.apply([['UpdateRecord', 'T', 2, {'S1': 5}]])
+    S = snapshot.take(p)
+    acc.count('witness_runs')
+    cells = S['Q'][1]['P']
+    if S['T'][1]['S1'] != [None, 5.0, 3.0]:
+      acc.violation('witness_setup', 'witness document is not in the expected state: %r' % (S['T'],))
+    elif cells != [['L', 1.0], ['L', 1.0]]:
+      acc.violation('sorted_helper_outlives_lookup_map', "witness: Q.P = %s after unhashable keys, a full recalculation, K = None and "
+                    'UpdateRecord T 2 {S1: 5}: %r, the matching rows are [1]' % (formula, cells), {'P': cells})
+    acc.case(None)
+
+
 def run_shard(spec, acc):
   from vlib.client import EngineProc, Watchdog, EngineDied
   if spec.get('witness'):
     witness_float_in_int_column(acc)
     witness_unhashable_key(acc)
+    witness_sorted_helper(acc)
     return None
   rnd = random.Random(spec['hseed'])
   with EngineProc(timeout=240.0) as p:
